@@ -1440,3 +1440,45 @@ Proof.
   set (a := ms (c_max_hb cf)) in *. set (b := ms (c_min_obt cf)) in *. set (c := ms (c_max_obt cf)) in *.
   set (e := ms (c_max_msgto cf)) in *. lia.
 Qed.
+
+(* ------------------------------------------------------------------ a consumer answers what it holds, also after CLS *)
+(* FIN / TOUCH / REQ naming a message the core still holds for this client (the core call
+   succeeds), with a 16-byte id and a numeric delay, SUCCEED in the subscribed and in the
+   closing state alike: no frame, the effect, the state unchanged.  (The other direction -
+   any other state is refused - is in [steps_conform].) *)
+Definition lit_fin : bytes := [70;73;78]%N.
+Definition lit_touch : bytes := [84;79;85;67;72]%N.
+Definition lit_req : bytes := [82;69;81]%N.
+
+Lemma idx0_of_id : forall id : bytes, len id = nsqd_MsgIDLength -> exists a r, id = a :: r.
+Proof.
+  intros id H. destruct id as [|a r].
+  - unfold len in H. simpl in H. unfold nsqd_MsgIDLength in H. discriminate H.
+  - exists a, r. reflexivity.
+Qed.
+
+Theorem held_answers_succeed : forall cf orc json st id rest,
+  c_tls_required cf = false ->
+  st_kind st = SSubscribed \/ st_kind st = SClosing ->
+  len id = nsqd_MsgIDLength ->
+  (orc (st_hist st) (KFin id) = true ->
+     exec cf orc json st [lit_fin; id] rest = XRes CFin (HOk [Fin id] (push_hist st (KFin id) true) rest))
+  /\ (orc (st_hist st) (KTouch id) = true ->
+     exec cf orc json st [lit_touch; id] rest
+       = XRes CTouch (HOk [Touch id (st_msgto st)] (push_hist st (KTouch id) true) rest))
+  /\ (forall t d, req_param (c_max_req cf) t = ReqDelay d -> orc (st_hist st) (KReq id d) = true ->
+     exec cf orc json st [lit_req; id; t] rest = XRes CReq (HOk [Req id d] (push_hist st (KReq id d) true) rest)).
+Proof.
+  intros cf orc json st id rest Htls Hk Hlen.
+  destruct (idx0_of_id id Hlen) as [a [r Hid]].
+  assert (Hcons : consuming st = true) by (unfold consuming; destruct Hk as [Hk|Hk]; rewrite Hk; reflexivity).
+  assert (Hgm : get_message_id id = IdOk id).
+  { unfold get_message_id. rewrite Hlen. rewrite Z.eqb_refl. simpl. rewrite Hid. reflexivity. }
+  split; [|split].
+  - intro Ho. unfold exec. simpl. unfold tls_gate_refuses. rewrite Htls. simpl.
+    unfold do_fin. rewrite Hcons. simpl. rewrite Hgm. unfold ask. rewrite Ho. reflexivity.
+  - intro Ho. unfold exec. simpl. unfold tls_gate_refuses. rewrite Htls. simpl.
+    unfold do_touch. rewrite Hcons. simpl. rewrite Hgm. unfold ask. rewrite Ho. reflexivity.
+  - intros t d Ht Ho. unfold exec. simpl. unfold tls_gate_refuses. rewrite Htls. simpl.
+    unfold do_req. rewrite Hcons. simpl. rewrite Hgm. rewrite Ht. unfold ask. rewrite Ho. reflexivity.
+Qed.
